@@ -62,6 +62,7 @@ type ctlOutcome struct {
 
 func run(c *props.Ctx) {
 	funcsCache = map[*ssa.Package][]*ssa.Function{}
+	siteCache = map[*ssa.Function]*ssa.Call{}
 	sp := c.P.SSAPkg(pkgRel)
 	if sp == nil {
 		c.R.Failf("anchor package %s not found", pkgRel)
